@@ -44,5 +44,5 @@ PROP = Prop(
                 'CrackingSession.run calls it first, and only, when the loaded options hold the cursor option (markov_level_resumed_first / '
                 'no_markov_resume_without_saved_cursor); _save_session writes the cursor option exactly when this process stopped inside a '
                 'Markov level (omen_cursor_iff_stopped_inside_omen), so a later cycle does not replay the remainder. '
-                'Known finding F17: a quit inside the Markov level of the very last pre-terminal is not saved.',
+                'A stop inside the Markov level of the very last pre-terminal is saved too (negative saved position = nothing left to queue; defect F17, repaired).',
 )
